@@ -19,6 +19,58 @@ mod scen_race;
 mod scen_sync;
 mod util;
 
+/// Address-reuse allocator (`--reuse-alloc`, plain lane only, off by default): blocks of exactly the size of a spmc run
+/// queue block (32 coroutine slots + 3 words, 288 bytes) are recycled LIFO through one process-wide free list, so that
+/// the block a stealer has just freed is the next one the owner allocates. The packed head word `(block, index)` of
+/// the run queue then compares equal again after 32-64 pushes: the ABA that glibc's per-thread caches hardly ever
+/// produce across threads (D34). Never under ASan (it would hide use-after-free from it).
+mod reuse {
+    use std::alloc::{GlobalAlloc, Layout, System};
+    use std::sync::atomic::{AtomicBool, AtomicUsize, Ordering::*};
+    pub static ENABLED: AtomicBool = AtomicBool::new(false);
+    pub static REUSED: AtomicUsize = AtomicUsize::new(0);
+    static LOCK: AtomicBool = AtomicBool::new(false);
+    static mut HEAD: *mut u8 = std::ptr::null_mut();
+    pub struct Reuse;
+    fn ours(l: &Layout) -> bool {
+        l.size() == 288 && l.align() <= 64
+    }
+    fn lock() {
+        while LOCK.compare_exchange_weak(false, true, Acquire, Relaxed).is_err() {
+            std::hint::spin_loop();
+        }
+    }
+    unsafe impl GlobalAlloc for Reuse {
+        unsafe fn alloc(&self, l: Layout) -> *mut u8 {
+            if ENABLED.load(Relaxed) && ours(&l) {
+                lock();
+                let h = HEAD;
+                if !h.is_null() {
+                    HEAD = *(h as *mut *mut u8);
+                    LOCK.store(false, Release);
+                    REUSED.fetch_add(1, Relaxed);
+                    return h;
+                }
+                LOCK.store(false, Release);
+                return System.alloc(Layout::from_size_align_unchecked(l.size(), 64));
+            }
+            System.alloc(l)
+        }
+        unsafe fn dealloc(&self, p: *mut u8, l: Layout) {
+            if ENABLED.load(Relaxed) && ours(&l) && (p as usize) % 64 == 0 {
+                lock();
+                *(p as *mut *mut u8) = HEAD;
+                HEAD = p;
+                LOCK.store(false, Release);
+                return;
+            }
+            System.dealloc(p, l)
+        }
+    }
+}
+#[global_allocator]
+static GLOBAL: reuse::Reuse = reuse::Reuse;
+
 use hook::PlanEntry;
 use std::collections::{BTreeMap, HashSet};
 use std::io::Write;
@@ -153,6 +205,11 @@ fn parse_args() -> Args {
             }
             "--no-hook" => {
                 a.no_hook = true;
+                i += 1;
+                continue;
+            }
+            "--reuse-alloc" => {
+                reuse::ENABLED.store(true, SeqCst);
                 i += 1;
                 continue;
             }
@@ -591,7 +648,7 @@ fn main() {
     } else {
         std::fs::write(&a.out, json).expect("write shard result");
     }
-    println!("DONE execs={} planned={} stalls_hit={} violations={} code={}", st.execs, st.planned, st.stalls_hit, st.violations.len(), stop_code);
+    println!("DONE execs={} planned={} stalls_hit={} violations={} code={} reused_blocks={}", st.execs, st.planned, st.stalls_hit, st.violations.len(), stop_code, reuse::REUSED.load(SeqCst));
     std::io::stdout().flush().ok();
     // stuck actors may keep the process alive: leave hard
     unsafe { libc::_exit(if stop_code != 0 { stop_code } else { 0 }) };
